@@ -140,7 +140,9 @@ class Runner:
                 for po in self.w.peers.values():
                     pass
                 out.append({"ev": ev, "c": c, "p": self._dial_peer(e["fd"]), "r": {"ok": "ok", "inprogress": "inprogress"}.get(e["outcome"], "fail")})
-            elif ev in ("app_req", "app_ans"):
+            elif ev == "app_req":
+                out.append({"ev": ev, "a": e["a"], "c": e.get("c", 0), "m": jmsg(e["m"])})
+            elif ev == "app_ans":
                 out.append({"ev": ev, "a": e["a"], "m": jmsg(e["m"])})
             elif ev == "submit":
                 out.append({"ev": ev, "a": e["a"], "m": jmsg(e["m"]), "r": e["r"]})
@@ -185,13 +187,15 @@ class Runner:
             req = act.get("_req")
             if req is None:     # replay: find the held request by its identifiers
                 for i, (nm, rq) in enumerate(self.held):
-                    if nm == act["app"] and rq.header.hop_by_hop_identifier == act["m"]["hbh"] and rq.header.end_to_end_identifier == act["m"]["e2e"]:
+                    if nm == act["app"] and rq.header.hop_by_hop_identifier == act["m"]["hbh"] and rq.header.end_to_end_identifier == act["m"]["e2e"] \
+                            and w.msg_conn.get(id(rq), (0, None))[0] == act.get("c0", w.msg_conn.get(id(rq), (0, None))[0]):
                         req = rq
                         del self.held[i]
                         break
                 else:
                     for rq in app.inbox:
-                        if rq.header.hop_by_hop_identifier == act["m"]["hbh"] and rq.header.end_to_end_identifier == act["m"]["e2e"]:
+                        if rq.header.hop_by_hop_identifier == act["m"]["hbh"] and rq.header.end_to_end_identifier == act["m"]["e2e"] \
+                                and w.msg_conn.get(id(rq), (0, None))[0] == act.get("c0", w.msg_conn.get(id(rq), (0, None))[0]):
                             req = rq
                             break
             if req is None:
@@ -374,6 +378,8 @@ class Gen:
             choices.append(("connect_result", 6))
         if self.r.held:
             choices.append(("submit", 4))
+        if getattr(self.r, "answered", None) and self.focus.get("resubmit"):
+            choices.append(("resubmit", 2))
         if any(p["persistent"] for p in self.r.full_cfg["peers"]):
             choices.append(("plan", 1))
         aw = self.focus.get("act", {})
@@ -384,21 +390,32 @@ class Gen:
             return {"a": a}
         if a == "feed":
             vc = rng.choice(usable)
-            n = 1 if rng.random() < 0.7 else 2
+            n = 1 if (rng.random() < 0.7 or self.focus.get("single")) else 2
             return {"a": "feed", "c": vc.c, "ms": [self.message(vc) for _ in range(n)]}
         if a in ("peer_close", "peer_reset"):
             return {"a": a, "c": rng.choice(usable).c}
         if a == "connect_result":
             return {"a": a, "c": rng.choice(connecting).c, "err": rng.choice([0, 0, 0, 111])}
+        if a == "resubmit":
+            name, req = rng.choice(self.r.answered)
+            from .world import abs_from_msg
+            am = abs_from_msg(req)
+            typed = am["code"] == 272
+            ans = M("APP", False, am["hbh"], am["e2e"], app=am["app"], oh=NODE_HOST if typed else "", rc=2001 if typed else 0,
+                    typed=typed, code=am["code"])
+            return {"a": "submit", "app": name, "m": ans, "c0": self.r.w.msg_conn.get(id(req), (0, None))[0], "_req": req}
         if a == "submit":
             name, req = self.r.held.pop(rng.randrange(len(self.r.held)))
+            if not hasattr(self.r, "answered"):
+                self.r.answered = []
+            self.r.answered.append((name, req))
             from .world import abs_from_msg
             am = abs_from_msg(req)
             typed = am["code"] == 272
             # (answers of commands without a python class carry no AVPs on the wire)
             ans = M("APP", False, am["hbh"], am["e2e"], app=am["app"], oh=NODE_HOST if typed else "", rc=2001 if typed else 0,
                     typed=typed, code=am["code"])
-            return {"a": "submit", "app": name, "m": ans, "_req": req}
+            return {"a": "submit", "app": name, "m": ans, "c0": self.r.w.msg_conn.get(id(req), (0, None))[0], "_req": req}
         if a == "plan":
             return {"a": "plan", "plan": [rng.choice(["ok", "inprogress", "inprogress", "fail"]) for _ in range(rng.randint(1, 3))]}
         raise AssertionError(a)
